@@ -10,7 +10,11 @@ MC_BaseCalls == <<
     Call("MkMat", 0, 0, "continuous", B(NoneQ, NoneQ), 2, 2, 1, "S"),
     Call("MkMat", 0, 0, "continuous", B(NoneQ, NoneQ), 3, 3, 0, "C"),
     Call("MkVec", 0, 0, "continuous", B(NoneQ, NoneQ), 3, 0, 0, "x"),
-    Call("MkVec", 0, 0, "continuous", B(NoneQ, NoneQ), 2, 0, 0, "y")
+    Call("MkVec", 0, 0, "continuous", B(NoneQ, NoneQ), 2, 0, 0, "y"),
+    Call("MGet", 1, 0, "", NoLit, 0, 2, 1, ""),
+    Call("MGet", 1, 0, "", NoLit, 0, 3, 1, ""),
+    Call("MGet", 3, 0, "", NoLit, 2, 1, 2, ""),
+    Call("MGet", 3, 0, "", NoLit, 3, 1, 2, "")
   >>
 MC_AllNames == {<<"A", i, j>> : i \in 0..1, j \in 0..2} \cup {<<"S", 0, 0>>, <<"S", 0, 1>>, <<"S", 1, 1>>}
                \cup {<<"C", i, j>> : i \in 0..2, j \in 0..2} \cup {<<"x", i>> : i \in 0..2} \cup {<<"y", i>> : i \in 0..1}
